@@ -6,7 +6,8 @@
    sum to the plaquette area, no overlap), vertices at their positions (definitional in the
    model), arrows, the parallel/colinear tolerance branches of line_intersection (K only). *)
 From Coq Require Import List ZArith QArith Bool Qminmax Qabs.
-From Koala Require Import Model.Clip Model.Plot Proofs.ClipFacts Proofs.PlotFacts Proofs.VisFacts.
+From Coq Require Import Lqa Lia.
+From Koala Require Import Model.Clip Model.Plot Proofs.ClipFacts Proofs.PlotFacts Proofs.VisFacts Proofs.CoverFacts Proofs.PlaqFacts.
 Import ListNotations.
 
 (* ---- clause "labels may be given per element or per subset element with the same result" ----
@@ -94,6 +95,38 @@ Theorem C16_visibility_sound : forall s : seg,
 Proof. exact visibility_sound. Qed.
 Print Assumptions C16_visibility_sound.
 
+(* ---- "... and nowhere twice": the clip intervals of two different integer translates of
+   one segment share at most one parameter value (segment not lying on a cell line) ---- *)
+Theorem C16_translates_disjoint : forall (s : seg) (d1 d2 : Z * Z) (i1 i2 : Q * Q),
+  off_cell_lines s -> d1 <> d2 ->
+  clip_interval (seg_translate s (zpoint d1)) = Some i1 ->
+  clip_interval (seg_translate s (zpoint d2)) = Some i2 ->
+  overlap_len i1 i2 <= 0.
+Proof. exact translates_disjoint. Qed.
+Print Assumptions C16_translates_disjoint.
+
+(* ---- "the total length of the drawn segments inside the unit cell equals the total length
+   of those edges": over the nine translates the clip lengths add up to exactly 1 ... ---- *)
+Theorem C16_translates_sum_one : forall s : seg,
+  0 <= px (seg_end s) -> px (seg_end s) < 1 -> 0 <= py (seg_end s) -> py (seg_end s) < 1 ->
+  -(1) < px (seg_start s) - px (seg_end s) -> px (seg_start s) - px (seg_end s) < 1 ->
+  -(1) < py (seg_start s) - py (seg_end s) -> py (seg_start s) - py (seg_end s) < 1 ->
+  off_cell_lines s ->
+  fold_right Qplus 0 (map (fun d => clip_len (seg_translate s (zpoint d))) nine) == 1.
+Proof. exact translates_sum_one. Qed.
+Print Assumptions C16_translates_sum_one.
+
+(* ... and the pieces that pass the visibility rule of plot_edges already carry all of it
+   (generic position: no end-point coordinate an integer, no cell-grid corner on the edge) *)
+Theorem C16_drawn_in_full : forall s : seg,
+  0 <= px (seg_end s) -> px (seg_end s) < 1 -> 0 <= py (seg_end s) -> py (seg_end s) < 1 ->
+  -(1) < px (seg_start s) - px (seg_end s) -> px (seg_start s) - px (seg_end s) < 1 ->
+  -(1) < py (seg_start s) - py (seg_end s) -> py (seg_start s) - py (seg_end s) < 1 ->
+  generic_edge s ->
+  drawn_len s == 1.
+Proof. exact drawn_in_full. Qed.
+Print Assumptions C16_drawn_in_full.
+
 (* ---- clause "the segment-intersection helper agrees with exact arithmetic for segments in
    general position" (non-parallel: |d2 x d1| >= tol and d2 x d1 <> 0) ---- *)
 Theorem C16_segment_intersection_exact : forall (tol : Q) (l1 l2 : seg),
@@ -127,3 +160,54 @@ Example C16_segment_intersection_nonvacuous :
   ~ dir_cross l1 l2 == 0 /\ (1 # 100000000000000) <= Qabs (dir_cross l1 l2) /\
   line_intersection (1 # 100000000000000) l1 l2 = true.
 Proof. cbv zeta. split; [intro H; vm_compute in H; discriminate|]. split; vm_compute; [intro H; discriminate|reflexivity]. Qed.
+
+Lemma ex_not_int (a : Z) (b : positive) : (forall k : Z, (a <> k * Zpos b)%Z) -> forall k : Z, ~ (a # b) == inject_Z k.
+Proof. intros H k E. unfold Qeq in E. simpl in E. apply (H k). lia. Qed.
+Example C16_drawn_in_full_nonvacuous :
+  generic_edge ex_seg /\ off_cell_lines ex_seg /\
+  0 <= px (seg_end ex_seg) /\ px (seg_end ex_seg) < 1 /\ 0 <= py (seg_end ex_seg) /\ py (seg_end ex_seg) < 1 /\
+  -(1) < px (seg_start ex_seg) - px (seg_end ex_seg) /\ px (seg_start ex_seg) - px (seg_end ex_seg) < 1 /\
+  -(1) < py (seg_start ex_seg) - py (seg_end ex_seg) /\ py (seg_start ex_seg) - py (seg_end ex_seg) < 1 /\
+  drawn_len ex_seg == 1 /\
+  length (filter (fun d => visible (seg_translate ex_seg (zpoint d))) nine) = 2%nat.
+Proof.
+  assert (G : generic_edge ex_seg).
+  { unfold generic_edge, ex_seg, seg_start, seg_end, seg_point, px, py. cbn [fst snd].
+    split; [apply ex_not_int; intro; simpl; lia|]. split; [apply ex_not_int; intro; simpl; lia|].
+    split; [apply ex_not_int; intro; simpl; lia|]. split; [apply ex_not_int; intro; simpl; lia|].
+    intros t n m Ht0 Ht1 [Hx Hy]. unfold lerp, seg_start, seg_end in Hx, Hy. cbn [fst snd] in Hx, Hy.
+    assert (E : inject_Z n - inject_Z m == -(1#2)) by lra.
+    assert (E2 : inject_Z (2 * (n - m) + 1) == 0).
+    { rewrite inject_Z_plus, inject_Z_mult. unfold Z.sub. rewrite inject_Z_plus, inject_Z_opp.
+      change (inject_Z 2) with 2. change (inject_Z 1) with 1. lra. }
+    unfold Qeq, inject_Z in E2. cbn [Qnum Qden] in E2. lia. }
+  split; [exact G|]. split; [apply generic_edge_off_cell_lines; exact G|].
+  unfold ex_seg, seg_start, seg_end, px, py. cbn [fst snd].
+  repeat split; try lra; vm_compute; reflexivity.
+Qed.
+
+(* ---- plaquettes (PARTIAL, see Proofs/PlaqFacts.v): every translate (dx,dy) in {-1,0,1}^2
+   for which the unwrapped polygon has vertices strictly on both sides of the cell line(s) it
+   has to reach across is drawn by the replication rule — diagonal translates included ---- *)
+Theorem C16_plaquette_translates_drawn_partial : forall (pts : polygon) (dx dy : Z),
+  off_line pts true 0 -> off_line pts true 1 -> off_line pts false 0 -> off_line pts false 1 ->
+  needs_shift pts true dx -> needs_shift pts false dy ->
+  In (ptranslate pts (zpoint (dx, dy)))
+     (replicate_polygon pts (pads (poly_lines pts) true) (pads (poly_lines pts) false)).
+Proof. exact plaquette_translates_drawn_partial. Qed.
+Print Assumptions C16_plaquette_translates_drawn_partial.
+
+(* a square plaquette across the corner (1,1) of the cell: four translates are drawn *)
+Example C16_plaquette_translates_nonvacuous :
+  let pts : polygon := [(5#4, 3#4); (5#4, 5#4); (3#4, 5#4); (3#4, 3#4)] in
+  needs_shift pts true (-1)%Z /\ needs_shift pts false (-1)%Z /\
+  off_line pts true 0 /\ off_line pts true 1 /\ off_line pts false 0 /\ off_line pts false 1 /\
+  length (replicate_polygon pts (pads (poly_lines pts) true) (pads (poly_lines pts) false)) = 4%nat.
+Proof.
+  cbv zeta. split.
+  { right; right. split; [reflexivity|]. split; [exists (5#4, 3#4)|exists (3#4, 3#4)]; (split; [simpl; tauto|vm_compute; reflexivity]). }
+  split.
+  { right; right. split; [reflexivity|]. split; [exists (5#4, 5#4)|exists (3#4, 3#4)]; (split; [simpl; tauto|vm_compute; reflexivity]). }
+  repeat split; try (vm_compute; reflexivity);
+    intros v Hv; simpl in Hv; repeat (destruct Hv as [<-|Hv]; [intro K; vm_compute in K; discriminate|]); destruct Hv.
+Qed.
